@@ -112,6 +112,19 @@ def attribute_pooled(pid, ctx, repo):
     ents = G.entries(spec)
     reach = G.with_state_writers(G.reachable(ents),
                                  G.reachable(ents, strong=True))
+    # code that *drives* an observation point — it calls one directly, with
+    # the callee resolved through the class hierarchy — prepares what the
+    # observation point sees (the order handed to sort_times, the model a
+    # library function configures): its findings concern the property too
+    drivers = set()
+    for node in G.defs:
+        if node in reach:
+            continue
+        for s_ in G.succ(node):
+            if s_ in ents and (node, s_) not in G._weak:
+                drivers.add(node)
+                break
+    reach = reach | drivers
     # a method found on a class also covers the definition it resolves to
     have = {(f['rule'], f['construct'], f['key']) for f in ctx.findings}
     for f in pooled_findings(repo):
